@@ -6,6 +6,8 @@ the Appendix-B / authority split of vlib/ref/rfc3986.py; the raw accessors must 
 """
 from __future__ import annotations
 
+import itertools
+
 from vlib import alphabets as A
 from vlib import impl
 from vlib.acc import Acc
@@ -218,6 +220,30 @@ def task_parse(prefix, encoded, maxlen, shard):
     return acc.result()
 
 
+PORT_DIGITS = ["0", "1", "5", "6", "9"]
+PORT_PREFIXES = ["http://h.com:", "//u:p@[::1]:", "x://h:", "https://u@1.2.3.4:"]
+
+
+def task_ports(maxlen, first, encoded):
+    """port = *DIGIT (RFC 3986 3.2.3): every digit string up to maxlen over a small digit set, incl. zero-padded and over-long ones"""
+    acc = Acc(ID, impl.backend)
+    states = set()
+    last = None
+    for n in range(0, maxlen):
+        for t in itertools.product(PORT_DIGITS, repeat=n):
+            digits = PORT_DIGITS[first] + "".join(t)
+            for prefix in PORT_PREFIXES:
+                for tail in ("", "/p?q#f"):
+                    st = case_parse(acc, prefix, digits + tail, encoded)
+                    if st is not None:
+                        states.add(st)
+                        last = (prefix + digits + tail, st)
+    acc.state_count = len(states)
+    if last:
+        acc.sample({"input": last[0], "encoded": encoded, "split": last[1], "backend": impl.backend}, 1)
+    return acc.result()
+
+
 def plan(ctx):
     quick = ctx.tier == "quick"
     tasks = []
@@ -227,6 +253,9 @@ def plan(ctx):
             for enc in (True, False):
                 for sh in A.shard_prefixes(A.DELIM, k, 1):
                     tasks.append(("checks.C07", "task_parse", (prefix, enc, k, sh), b, "p"))
+        for first in range(len(PORT_DIGITS)):
+            for enc in (True, False):
+                tasks.append(("checks.C07", "task_ports", (7 if quick else 9, first, enc), b, "d"))
         if quick:
             for prefix, enc in (("", True), ("//", False)):
                 for sh in A.shard_prefixes(A.DELIM, 5, 1):
@@ -234,6 +263,6 @@ def plan(ctx):
         else:
             for sh in A.shard_prefixes(A.DELIM, 6, 2):
                 tasks.append(("checks.C07", "task_parse", ("", True, 6, sh), b, "p6"))
-    ctx.notes["bounds"] = {"alphabet": A.DELIM, "max_word_length": k, "prefixes": PREFIXES, "modes": ["encoded=True", "encoded=False"],
+    ctx.notes["bounds"] = {"alphabet": A.DELIM, "max_word_length": k, "prefixes": PREFIXES, "modes": ["encoded=True", "encoded=False"], "port_digit_strings": {"digits": PORT_DIGITS, "max_length": 7 if quick else 9, "prefixes": PORT_PREFIXES},
                            "extra": "length 5 for ('', encoded) and ('//', auto-encoding)" if quick else "length 6 with prefix '' in encoded mode"}
     return tasks
